@@ -69,3 +69,19 @@ Example C05_reencoder_lag_witness :
   | Passthrough _ => False
   end.
 Proof. vm_compute. repeat split. Qed.
+
+(* The look-ahead premise, discharged for MessagePack on the model of rmp-serde's
+   decoder (theories/MsgpackAgreeProofs.v): a document that decodes is decoded
+   the same way whatever follows it - same events, and everything that follows is
+   left untouched.  The reader loop therefore needs no byte beyond the end of
+   document k to hand document k over: need k = ends k <= ends (k + 2). *)
+From XtModel Require Import MsgpackModel MsgpackDecProofs MsgpackAgreeProofs.
+
+Theorem C05_msgpack_decoder_needs_no_lookahead :
+  forall (utf8_valid : bytes -> bool) (ext_ok : bool) (doc : bytes) (depth : nat) (tail : bytes) (evs : list ev),
+    decode utf8_valid ext_ok doc depth = (evs, DOk []) ->
+    decode utf8_valid ext_ok (doc ++ tail) depth = (evs, DOk tail).
+Proof.
+  intros u x doc depth tail evs H.
+  exact (D_extend u x doc depth tail evs (DOk []) H I).
+Qed.
